@@ -58,7 +58,7 @@ Theorem C13_revert_restores : forall e s span outs x0 x1,
   let s2 := spec_run e s1 span outs in
   sp_cur (fst (spec_step e s2 (Revert (sp_next s)) x1)) = sp_cur s /\
   snd (spec_step e s2 (Revert (sp_next s)) x1) = ERes R_ok /\
-  wf_op_b s2 (Revert (sp_next s)) = (if sp_pend s2 then false else true).
+  wf_op_b s2 (Revert (sp_next s)) = true.
 Proof. exact spec_revert_restores. Qed.
 Print Assumptions C13_revert_restores.
 
